@@ -91,16 +91,21 @@ SAMPLE_RATES = [96000, 88200, 64000, 48000, 44100, 32000, 24000, 22050, 16000, 1
 MATRIX = [0x10000, 0, 0, 0, 0x10000, 0, 0, 0, 0x40000000]
 
 
+FORCE = {}      # parameters pinned by synth_grid() (empty: everything is drawn)
+
+
 def times(rng, version):
     """creation, modification (seconds since 1904 – kept inside the datetime range), duration"""
     w = 64 if version == 1 else 32
     lim = min((1 << w) - 1, 250_000_000_000)
+    if "time" in FORCE:
+        return min(FORCE["time"], lim), min(FORCE["time"], lim), bnd(rng, w)
     t = lambda: rng.choice([0, 1, lim, rng.randrange(lim + 1), 3_600_000_000])  # noqa: E731
     return t(), t(), bnd(rng, w)
 
 
 def mvhd(rng):
-    v = rng.choice([0, 1])
+    v = FORCE.get("version", rng.choice([0, 1]))
     c, m, d = times(rng, v)
     f = ">QQIQ" if v else ">IIII"
     p = struct.pack(f, c, m, bnd(rng, 32), d)
@@ -112,7 +117,7 @@ def mvhd(rng):
 
 
 def tkhd(rng):
-    v = rng.choice([0, 1])
+    v = FORCE.get("version", rng.choice([0, 1]))
     c, m, d = times(rng, v)
     flags = rng.randrange(16)
     if v:
@@ -126,7 +131,7 @@ def tkhd(rng):
 
 
 def mdhd(rng):
-    v = rng.choice([0, 1])
+    v = FORCE.get("version", rng.choice([0, 1]))
     c, m, d = times(rng, v)
     p = struct.pack(">QQIQ" if v else ">IIII", c, m, bnd(rng, 32), d)
     lang = rng.choice([(21, 14, 4), (5, 14, 7), (0, 0, 0), (31, 31, 31), tuple(rng.randrange(32) for _ in range(3))])
@@ -177,11 +182,11 @@ def vttc(rng):
 
 
 def avcc(rng):
-    profile = rng.choice([66, 77, 88, 100, 110, 122, 244, 44, 100, 100])
+    profile = FORCE.get("profile", rng.choice([66, 77, 88, 100, 110, 122, 244, 44, 100, 100]))
     ext = profile in (100, 110, 122, 244, 44, 83, 86, 118, 128, 134, 135, 138, 139)
     def nal(lo, hi):       # parameter sets are opaque byte strings (at least one byte)
         return P.content(rng) or b"\x67" if rng.random() < .4 else rbytes(rng, rng.randrange(lo, hi))
-    sps = [nal(1, 30) for _ in range(rng.choice([0, 1, 1, 2, 31]))]
+    sps = [nal(1, 30) for _ in range(FORCE.get("nsps", rng.choice([0, 1, 1, 2, 31])))]
     pps = [nal(1, 12) for _ in range(rng.choice([0, 1, 1, 3]))]
     p = bytes([1, profile, bnd(rng, 8), bnd(rng, 8), 0xFC | rng.randrange(4), 0xE0 | len(sps)])
     for s in sps:
@@ -189,7 +194,7 @@ def avcc(rng):
     p += bytes([len(pps)])
     for s in pps:
         p += struct.pack(">H", len(s)) + s
-    if ext and rng.random() < .7:      # the tail is optional even for the extended profiles
+    if ext and FORCE.get("tail", rng.random() < .7):      # the tail is optional even for the extended profiles
         se = [nal(1, 9) for _ in range(rng.choice([0, 0, 1, 2]))]
         p += bytes([0xFC | rng.randrange(4), 0xF8 | rng.randrange(4), 0xF8 | rng.randrange(4), len(se)])
         for s in se:
@@ -220,19 +225,19 @@ def dec3(rng):
     """EC3SpecificBox, ETSI TS 102 366 F.6: independent substreams with or without dependent
     substreams, with or without the trailing extension (reserved 7, flag_ec3_extension_type_a 1,
     complexity_index_type_a 8)"""
-    n = rng.choice([1, 1, 2, 3, 8])
+    n = FORCE.get("nsub", rng.choice([1, 1, 2, 3, 8]))
     b = Bits()
     b.put(13, bnd(rng, 13)).put(3, n - 1)
     for _ in range(n):
         b.put(2, rng.randrange(3)).put(5, rng.randrange(32)).put(1, 0).put(1, 0).put(3, rng.randrange(8))
         b.put(3, rng.randrange(8)).put(1, rng.randrange(2)).put(3, 0)
-        dep = rng.choice([0, 0, 1, 15])
+        dep = FORCE.get("dep", rng.choice([0, 0, 1, 15]))
         b.put(4, dep)
         if dep:
             b.put(9, bnd(rng, 9))
         else:
             b.put(1, 0)
-    if rng.random() < .5:
+    if FORCE.get("ext", rng.random() < .5):
         b.put(7, 0).put(1, rng.randrange(2)).put(8, bnd(rng, 8))
     return box(b"dec3", b.bytes())
 
@@ -265,13 +270,13 @@ def esds(rng):
     b = Bits()
     aot = rng.choice([2, 2, 5, 1, 4, 6, 20, 17, 19, 22, 23])
     b.put(5, aot)
-    fi = rng.choice([3, 4, 0, 12, 15, 15])
+    fi = FORCE.get("fi", rng.choice([3, 4, 0, 12, 15, 15]))
     b.put(4, fi)
     if fi == 15:
-        b.put(24, pool(rng, SAMPLE_RATES + [0, 1, 0xFFFFFF, 47999, 48001], 24))
+        b.put(24, FORCE.get("rate", pool(rng, SAMPLE_RATES + [0, 1, 0xFFFFFF, 47999, 48001], 24)))
     b.put(4, rng.choice([1, 2, 6, 7]))
     b.put(1, rng.randrange(2))                  # frameLengthFlag
-    dep = rng.randrange(2)
+    dep = FORCE.get("core", rng.randrange(2))
     b.put(1, dep)
     if dep:
         b.put(14, pool(rng, [0, 1, 0x3FFF], 14))
@@ -288,9 +293,9 @@ def esds(rng):
     while b.n % 8:
         b.put(1, 0)
     # trailing bytes (sync extension …); sizes around the 1-/2-byte descriptor length boundary
-    extra = rng.choice([0, 0, 3, 130, 127 - b.n // 8, 128 - b.n // 8])
-    asc = b.bytes() + (P.content(rng) if rng.random() < .3 else rbytes(rng, max(0, extra)))
-    width = rng.choice([0, 0, 4, 2, 1])
+    extra = FORCE.get("extra", rng.choice([0, 0, 3, 130, 127 - b.n // 8, 128 - b.n // 8]))
+    asc = b.bytes() + (P.content(rng) if "extra" not in FORCE and rng.random() < .3 else rbytes(rng, max(0, extra)))
+    width = FORCE.get("width", rng.choice([0, 0, 4, 2, 1]))
     dcd = struct.pack(">BB", 0x40, (rng.choice([5, 4]) << 2) | (rng.randrange(2) << 1) | 1)
     dcd += bnd(rng, 24).to_bytes(3, "big") + struct.pack(">II", bnd(rng, 32), bnd(rng, 32))
     dcd += descr(5, asc, width)
@@ -398,3 +403,55 @@ def synth(rng):
         return f.__name__, f(rng)
     finally:
         CUR_RNG = None
+
+
+# seconds since 1904-01-01: the far past/future instants of the checklist
+TIME_POINTS = [0, 1, 2**31 - 1, 2**31, 2082844800,          # 1970-01-01
+               4165689600 + 3196800,                        # 2036-02-07 (NTP era)
+               2082844800 + 2**31 - 1, 2082844800 + 2**31,  # 2038-01-19
+               2**32 - 1, 2**32, 2**32 + 1,                 # 2040-02-06: the end of the 32-bit fields
+               6185289600,                                  # 2100-01-01
+               250_000_000_000]                             # year 9826
+
+
+def synth_grid():
+    """fixed list of (label, bytes), the same for every seed: every conditional layout with pinned parameters"""
+    import random
+    global CUR_RNG
+    out = []
+
+    def run(label, fn, **force):
+        FORCE.clear()
+        FORCE.update(force)
+        r = random.Random("synth-grid:" + label)
+        try:
+            out.append((label, fn(r)))
+        finally:
+            FORCE.clear()
+
+    for fn in (mvhd, tkhd, mdhd):
+        for v in (0, 1):
+            for t in TIME_POINTS:
+                if v == 0 and t >= 2**32:
+                    continue
+                run(f"{fn.__name__}.v{v}.t{t}", fn, version=v, time=t)
+    for n in range(1, 9):
+        for dep in (0, 1, 15):
+            for ext in (False, True):
+                run(f"dec3.n{n}.dep{dep}.ext{int(ext)}", dec3, nsub=n, dep=dep, ext=ext)
+    for profile in (66, 77, 88, 100, 110, 122, 244, 44):
+        for tail in (False, True):
+            for nsps in (0, 1, 2, 31):
+                run(f"avcC.p{profile}.tail{int(tail)}.sps{nsps}", avcc, profile=profile, tail=tail, nsps=nsps)
+    for rate in SAMPLE_RATES + [0, 1, 0xFFFFFF, 47999, 48001]:
+        for core in (0, 1):
+            run(f"esds.escape-rate{rate}.core{core}", esds, fi=15, rate=rate, core=core, extra=0, width=0)
+    for fi in range(13):
+        run(f"esds.index{fi}", esds, fi=fi, extra=0, width=0)
+    for width in (0, 1, 2, 3, 4):
+        for extra in (0, 100, 110, 120, 125, 126, 127, 128, 129, 200):
+            run(f"esds.width{width}.extra{extra}", esds, width=width, extra=extra, fi=3, core=0)
+    for i in range(12):
+        run(f"sample_entry.{i}", sample_entry)
+        run(f"moov.{i}", moov)
+    return out
